@@ -55,6 +55,30 @@ def observe(name):
             rec["out"] = int(r)
             seen.append(rec)
         return r
+    orig_mark = mono.Monomer.mark
+
+    def mk(self, position, o_atom, n_atom):
+        rec = None
+        try:
+            if isinstance(position, (int, np.integer)) and position >= 0:
+                rec = dict(snap(self), fn="mark", binding=int(position), o_marker=int(o_atom[0]), n_marker=int(n_atom[0]))
+                before = [int(v) for v in self.x[:, 0]]
+        except Exception:
+            rec = None
+        try:
+            r = orig_mark(self, position, o_atom, n_atom)
+        except Exception as e:
+            if rec is not None:
+                rec["exc"] = type(e).__name__
+                seen.append(rec)
+            raise
+        if rec is not None:
+            after = [int(v) for v in self.x[:, 0]]
+            rec["out"] = [[i, b] for i, (a, b) in enumerate(zip(before, after)) if a != b]
+            rec["rdkit_agrees"] = all(self.get_structure().GetAtomWithIdx(i).GetAtomicNum() == after[i] for i in range(len(after)))
+            seen.append(rec)
+        return r
+    mono.Monomer.mark = mk
     mono.Monomer.find_oxygen, mono.Monomer.root_atom_id = fo, ra
     try:
         from glyles.glycans.poly.glycan import Glycan
@@ -66,6 +90,7 @@ def observe(name):
         pass
     finally:
         mono.Monomer.find_oxygen, mono.Monomer.root_atom_id = orig_fo, orig_ra
+        mono.Monomer.mark = orig_mark
     return seen
 
 
@@ -77,11 +102,13 @@ def run(rep, tier, driver, names):
     reqs, keep, seen_keys = [], [], set()
     for nm, recs in zip(names, obs):
         for r in recs:
-            key = (r["fn"], r.get("binding"), r.get("position"), tuple(map(tuple, r["atoms"])), tuple(map(tuple, r["adj"])), tuple(r["x"]))
+            key = (r["fn"], r.get("binding"), r.get("position"), r.get("o_marker"), tuple(map(tuple, r["atoms"])), tuple(map(tuple, r["adj"])), tuple(r["x"]))
             if key in seen_keys:
                 continue
             seen_keys.add(key)
             q = {"op": "findox", "atoms": r["atoms"], "adj": r["adj"], "x": r["x"]}
+            if r["fn"] == "mark":
+                q["o_marker"], q["n_marker"] = r["o_marker"], r["n_marker"]
             if "binding" in r:
                 q["binding"] = r["binding"]
             else:
@@ -95,12 +122,17 @@ def run(rep, tier, driver, names):
     bad = 0
     for (nm, r), a in zip(keep, ans):
         st["calls_compared"] += 1
-        rep.count("find_oxygen-compared" if r["fn"] == "find" else "root_atom_id-compared")
-        got = a.get("root") if r["fn"] == "root" else a.get("find")
+        rep.count({"find": "find_oxygen-compared", "root": "root_atom_id-compared", "mark": "mark-compared"}[r["fn"]])
+        got = a.get({"root": "root", "find": "find", "mark": "mark"}[r["fn"]])
         if got is None:
             st["unmodelled"] += 1
             continue
-        want = r["out"] if "out" in r else r["exc"]
+        if r["fn"] == "mark":
+            # the code: exactly the atoms whose element changed, and to what; the Model: [atom, marker] or the exception
+            want = (r["out"][0] if len(r["out"]) == 1 and r.get("rdkit_agrees") else {"changed": r["out"]}) if "out" in r else r["exc"]
+            st["mark_calls"] = st.get("mark_calls", 0) + 1
+        else:
+            want = r["out"] if "out" in r else r["exc"]
         if got == want:
             st["agree"] += 1
         else:
